@@ -987,6 +987,9 @@ class WSGIApp:
         new_submodel_element = HTTPApiDecoder.request_body(request,
                                                            model.SubmodelElement,  # type: ignore[type-abstract]
                                                            is_stripped_request(request))
+        if type(new_submodel_element) is not type(submodel_element):
+            # update_from() cannot turn an object into one of another class (it would stop half-way)
+            raise BadRequest(f"{submodel_element!r} cannot be replaced by a {type(new_submodel_element).__name__}!")
         submodel_element.update_from(new_submodel_element)
         submodel_element.commit()
         return response_t()
